@@ -17,6 +17,11 @@ structure ClockTimestamp where
   timeOffset : Option Int
 deriving DecidableEq, Repr
 
+/-- the public accessors `SecMinHour::seconds / minutes / hours`: the coded part, 0 for a part that is not coded -/
+def SecMinHour.seconds : SecMinHour → Nat | .none => 0 | .s x => x | .sm x _ => x | .smh x _ _ => x
+def SecMinHour.minutes : SecMinHour → Nat | .none => 0 | .s _ => 0 | .sm _ y => y | .smh _ y _ => y
+def SecMinHour.hours : SecMinHour → Nat | .none => 0 | .s _ => 0 | .sm _ _ => 0 | .smh _ _ z => z
+
 structure PicStruct where
   picStruct : Nat
   clockTimestamps : List (Option ClockTimestamp)
